@@ -131,9 +131,9 @@ def ob_clean_flat(h):
     h.check("flat_curve_is_empty", len(yk) == 0 and len(xk) == 0)
 
 
-def _ob_rdp(n):
+def _ob_rdp(n, xgrid=None):
     def ob(h):
-        pts = [(h.real(f"x{i}"), h.real(f"y{i}")) for i in range(n)]
+        pts = [((h.real(f"x{i}") if xgrid is None else float(xgrid[i])), h.real(f"y{i}")) for i in range(n)]
         eps = h.real("epsilon")
         h.assume(eps > 0)
         h.assume(Or(pts[0][0] != pts[n - 1][0], pts[0][1] != pts[n - 1][1]))
@@ -242,5 +242,7 @@ def obligations():
         Obligation("C17.fallback", ob_fallback, kind="proof", functions=[sl.get_piecewise_data_points], stubs=("_get_piecewise_breakpoints", "_rdp")),
     ]
     obs += split(Obligation("C17.clean5.b", _ob_clean(5), kind="bounded", tier="thorough", bound="composite curves of 5 points", functions=fc, max_paths=2000000), points=[5])
-    obs.append(Obligation("C17.rdp4.b", _ob_rdp(4), kind="bounded", tier="thorough", bound="polylines of 4 points", functions=[sl._rdp], timeout_ms=60000, max_paths=200000))
+    obs.append(Obligation("C17.rdp4.grid.b", _ob_rdp(4, xgrid=(0.0, 10.0, 20.0, 30.0)), kind="bounded", tier="thorough", functions=[sl._rdp], timeout_ms=60000, max_paths=200000,
+                          bound="polylines of 4 points with abscissae 0, 10, 20, 30 (enthalpy grid), ordinates and epsilon symbolic",
+                          doc="two recursion levels of _rdp; fully symbolic 4-point polylines are degree-4 problems the solvers do not decide reliably (not claimed)"))
     return obs
